@@ -18,6 +18,11 @@ Ops
                               all) in reads of the given buffer sizes (cycled)   -> n=<replica size>
   conc <ns> <keys>|<keys>|..  concurrent callers on store 0   -> seq=<highest id> ok
   chk <S> <ns> <keys>         keys must map to distinct ids in 1..seq that map back -> ok distinct=<n>
+  race <c|r|f> <rounds> <keys>|<keys>|..   statistical: per round the batches are translated by
+                              goroutines released together on a namespace nobody touched before
+                              (c fresh index/columns, r fresh index+field/rows, f fresh field of an
+                              existing index), in a store of its own; after every round the mapping
+                              must be a bijection onto 1..n   -> rounds=<R> seq=<n> ok
   http <keys>                 keys [a-z0-9]+; a server translates them one Set at a time, a fresh store
                               replicates the server's log over HTTP   -> same=true <ids csv>
 `#spec` carries the answer of Spec (a pure function of the list of committed entries).
@@ -203,6 +208,22 @@ def step (st : St) (ws : List String) : St × Ans :=
       | .ok k => (st, ans2 ("x" ++ showHex k) sp "reverse")
       | .error m => (st, ans2 m sp "reverse")
     | _, _, _ => bad
+  | ["race", kind, rounds, bs] =>
+    match rounds.toNat?, (bs.splitOn "|").mapM parseKeys with
+    | some r, some batches =>
+      if r = 0 ∨ r ≥ 65536 ∨ batches.length > 16 ∨ (kind ≠ "c" ∧ kind ≠ "r" ∧ kind ≠ "f") then bad else
+      -- every round is the same for the model: any interleaving of the phases on a fresh
+      -- namespace ends with the distinct keys mapped onto 1..n (C24_bijection); one schedule is run
+      let ns := if kind = "c" then NsKey.col [122] else NsKey.row [122] [103]
+      let specLog := batches.foldl (fun l keys => (Spec.translate l false ns keys).1) []
+      let sp := s!"rounds={r} seq={Spec.count specLog ns} ok"
+      let res := batches.foldlM (fun (s : Store RHH) keys => do
+        let (s', _, _) ← translate T s ns keys
+        pure s') (Store.empty RHH false)
+      match res with
+      | .ok s => (st, ans2 s!"rounds={r} seq={((getNs s.nss ns).map (·.seq)).getD 0} ok" sp "race")
+      | .error m => (st, ans2 m sp "race")
+    | _, _ => bad
   | ["http", ks] =>
     match parseKeys ks with
     | some keys =>
